@@ -2243,6 +2243,8 @@ impl<'a> Visitor<'a> {
         span: Span,
         run: R,
     ) -> SassResult<V> {
+        #[cfg(grass_verif)]
+        let _verif_depth = crate::verif::depth_guard();
         let mut evaluated = self.eval_maybe_args(arguments, span)?;
 
         let mut name = func.name().to_string();
